@@ -272,7 +272,8 @@ def attrs_model(attrs):
 
 def check_attrs(case, ctx):
     import numpoly
-    from numpoly.construct.clean import PolynomialConstructionError
+    # "rejected" = a ValueError (PolynomialConstructionError is one); which subclass is not part of the claim
+    PolynomialConstructionError = ValueError
 
     attrs = dict(case["attrs"])
     attrs["rows"] = [list(r) for r in attrs["rows"]]
